@@ -176,7 +176,7 @@ def scenario(clock_name, clock, ending, sleep_check):
 def main_():
     inp = json.load(open(sys.argv[1]))
     clocks = [('SystemClock', clk.SystemClock), ('AppClock', clk.AppClock),
-              ('TempoClock', clk.TempoClock(2)), ('TempoClock_b', clk.TempoClock(1))]
+              ('TempoClock', clk.TempoClock(64)), ('TempoClock_b', clk.TempoClock(32))]
     res = []
     for name, c in clocks:
         if name not in inp.get('clocks', [n for n, _ in clocks]):
